@@ -125,6 +125,28 @@ ALL_FEATURES = [
 ]
 
 
+THEMES = [
+    # constants, aggregates and the globals that read them
+    ["const_chain", "usize_sizes", "structs", "nested_structs", "alias", "distinct", "comptime_struct",
+     "struct_fns", "typed_user_globals", "global_readers", "value_alias", "global_array",
+     "comptime_locals", "struct_arrays", "untyped_consts", "const_arrays", "alias_hops", "same_names",
+     "indirect_refs", "comptime_int"],
+    # recursion and scheduling
+    ["recursion", "mutual_recursion", "comptime_int", "const_chain", "local_comptime",
+     "local_comptime_calls", "fn_value", "alias_recursion", "rec_lambdas", "weak_locals", "higher_order",
+     "loops", "lambdas", "defer_break", "comptime_locals", "value_alias", "indirect_refs"],
+    # generics
+    ["generic_type", "generic_int", "generic_twins", "generic_dependent", "type_fn", "global_type_inst",
+     "generic_enums", "generic_enum_units", "generic_enum_bases", "generic_alias_param",
+     "distinct_generics", "distinct", "comptime_int", "structs", "indirect_refs"],
+    # the other type constructors and what codegen makes of them
+    ["enums", "enum_discriminants", "comptime_enum", "enum_compare", "optionals", "error_unions",
+     "pointers", "slices", "floats", "struct_cast", "fn_members", "anon_literals", "type_fields",
+     "type_tables", "type_blocks", "bools", "local_comptime_aggs", "structs", "struct_fns", "distinct",
+     "indirect_refs"],
+]
+
+
 class Item:
     def __init__(self, name, kind):
         self.name = name
@@ -2473,12 +2495,25 @@ def generate(rnd, features=None, n_globals=None):
     """features: iterable of feature names (default: a seeded subset = swarm)"""
     if features is None:
         # swarm: the density of enabled features is itself drawn per program, so that some
-        # programs concentrate their 3-12 globals on a few constructs and others mix many
-        density = rnd.choice([0.12, 0.25, 0.4, 0.55])
+        # programs concentrate their 3-12 globals on a few constructs and others mix many.
+        # Half of the programs are *themed*: the features of one family are enabled with high
+        # probability and everything else only rarely, so that constructs which have to meet in
+        # one small program (an annotated global and a global that reads it; two instantiations
+        # of one generic) still meet often now that there are more than sixty features.
         features = {"functions"}
-        for f in ALL_FEATURES:
-            if rnd.random() < (min(0.2, density) if f == "use_core" else density):
-                features.add(f)
+        if rnd.random() < 0.5:
+            theme = set(rnd.choice(THEMES))
+            for f in ALL_FEATURES:
+                p = 0.65 if f in theme else 0.06
+                if f == "use_core":
+                    p = 0.1
+                if rnd.random() < p:
+                    features.add(f)
+        else:
+            density = rnd.choice([0.12, 0.25, 0.4, 0.55])
+            for f in ALL_FEATURES:
+                if rnd.random() < (min(0.2, density) if f == "use_core" else density):
+                    features.add(f)
     if n_globals is None:
         n_globals = rnd.randint(3, 12)
     import os
